@@ -8,11 +8,11 @@ from vf import engine, loader
 oid = sys.argv[1]
 prop = oid.split('.')[0]
 native = '--native' in sys.argv
+engine.load_harness(prop)          # before the loader: a harness may declare ghost counters (TICK_LOOPS)
 if native:
     loader.install_native()
 else:
     loader.install_symbolic()
-engine.load_harness(prop)
 ob = engine.REGISTRY[oid]
 sel = sys.argv[2] if len(sys.argv) > 2 and not sys.argv[2].startswith('--') else 'all'
 idxs = range(len(ob.cases)) if sel == 'all' else [int(sel)]
